@@ -15,6 +15,7 @@ CONSTANTS
   Hyp_SharedFunctions = TRUE
   Hyp_RhsCachedByName = FALSE
   Hyp_SteadyOneShot = FALSE
+  Hyp_SettingsSurviveReparse = FALSE
 INVARIANT TypeOK
 INVARIANT C17_HistoryIndependent
 INVARIANT C17_ReparseClean
